@@ -4,9 +4,7 @@ patch="$1"; shift
 cd /repo || exit 2
 if ! git diff --quiet; then echo "/repo working tree is dirty - refusing"; exit 2; fi
 if ! git apply "$patch" 2>/dev/null; then
-  if ! git apply --3way "$patch" 2>/dev/null; then
-    if ! patch -p1 --fuzz=3 -s < "$patch"; then echo "PATCH-DOES-NOT-APPLY"; git checkout -- . ; exit 2; fi
-  fi
+  if ! patch -p1 --fuzz=3 -s < "$patch" >/dev/null 2>&1; then echo "PATCH-DOES-NOT-APPLY"; git reset -q --hard HEAD; git clean -fdq; exit 2; fi
 fi
 for id in "$@"; do
   cd /verif
@@ -15,6 +13,6 @@ for id in "$@"; do
   echo "--- $id exit=$rc"
   echo "$out" | grep -E "^(VIOLATION|SUMMARY|HARNESS|MACHINERY)" | cut -c1-330 | head -${LINES_MAX:-6}
 done
-cd /repo && git checkout -- . && git reset -q && git status --short | head -3
+cd /repo && git reset -q --hard HEAD && git clean -fdq && git status --short | head -3
 # evidence/replays written while the seeded change was applied do not describe /repo: drop them
 git -C /verif checkout -q -- evidence replays 2>/dev/null; git -C /verif clean -fdq replays evidence
